@@ -359,6 +359,36 @@ def trace(run):
     judge_events(run, evs, 'trace')
 
 
+def date_criteria(run):
+    """Criteria ranges of date-times (several on one calendar day) under criteria taken from a cell: the plain value and every operator
+    assembled with &. A date-time is a number (days and fraction of a day): the acceptances are those of XlCriteria for the numbers
+    4 * day + quarter (Trace_C12); positions are observed through a SUMIFS / COUNTIFS / AVERAGEIFS over powers of two."""
+    import datetime
+    base = datetime.datetime(2024, 3, 5)
+    quarters = [0, 1, 2, 3, 4, 6, -2, 2]                 # quarter days from the base: 00:00, 06:00, 12:00, 18:00, next day 00:00, next day 12:00, day before 12:00, 12:00 again
+    n = len(quarters)
+    col = [{'k': 'num', 'q': 4 * 45356 + k} for k in quarters]
+    cells = [base + datetime.timedelta(hours=6 * k) for k in quarters]
+    evs, forms, ov_list = [], [], []
+    for crit_q in (0, 2, 3, 4):
+        for op in OPS:
+            crit = {'op': op, 'operand': {'k': 'num', 'q': 4 * 45356 + crit_q}}
+            T = 'E1' if op == 'EQ' else f'"{OPS[op]}"&E1'
+            forms.append(f'=SUMIFS(G1:G{n},A1:A{n},{T})')
+            ov_list.append(base + datetime.timedelta(hours=6 * crit_q))
+            evs.append({'cols': [col], 'crits': [crit], 'sps': ['valuecell' if op == 'EQ' else 'opcat'], 'n': n, 'seed': -1})
+    consts = {(6, i): 2 ** i for i in range(n)}
+    consts.update({(0, i): c for i, c in enumerate(cells)})
+    p = repo.Probe(forms, consts)
+    for i, e in enumerate(evs):
+        r = p.eval([(0, 4, 0, ov_list[i])], idxs=(i,))[0]
+        got = outcome(*r)
+        e['obs'] = [b + 1 for b in range(n) if int(got) >> b & 1] if isinstance(got, (int, float)) and float(got).is_integer() and 0 <= got < 2 ** n else [-2]
+        e['raw'] = show(*r)
+        e['formula'] = forms[i] + f' with A1..A{n} = the base day 2024-03-05 + {quarters} quarter days, E1 = base + {ov_list[i] - base}'
+    judge_events(run, evs, 'date_criteria')
+
+
 def witnesses(run):
     for fid, f in run.open.items():
         w = f['witness']
@@ -384,10 +414,14 @@ def check(run):
     witnesses(run)
     gen(run)
     trace(run)
+    date_criteria(run)
 
 
 def replay(run, case):
     i = case['in']
+    if case.get('kind') == 'date_criteria':
+        date_criteria(run)
+        return
     if case.get('kind') == 'gen':
         R = i['R']
         sps = [i['spelling']]
